@@ -1003,14 +1003,7 @@ def oracle(c, out):
             _check_tree_inputs(o, site, fails)
             _check_intervals(o["intervals"], c["L"], "tsf.fit", fails)
     if kind == "colens":
-        # members are fitted on encoded labels 0..K-1 = positions in classes_
-        K = len(o["classes"])
-        if any(list(mc) != list(range(K)) for mc in o["member_classes"]):
-            return fails
-        exp = np.mean(np.array(o["members"]), axis=0)
-        if np.abs(exp - o["proba"]).max() > 1e-9:
-            fails.append(("colens:proba-not-mean-of-members", "row 0: %r, mean of members %r" % (o["proba"][0].tolist(), exp[0].tolist())))
-        # own columns: what the user specified for that entry
+        # own columns: what the user specified for that entry ('drop' entries and empty selections get no member)
         want = []
         for (drop, key, _) in c["entries"]:
             k = _entry_key(key)
@@ -1020,6 +1013,18 @@ def oracle(c, out):
             want.append([o["names"][x] if isinstance(x, int) else x for x in ks])
         if want != o["fit_cols"] or want != o["pred_cols"]:
             fails.append(("colens:member-not-on-own-columns", "specified %r, fitted on %r, asked on %r" % (want, o["fit_cols"], o["pred_cols"])))
+            return fails
+        # members are fitted on encoded labels 0..K-1 = positions in classes_
+        K = len(o["classes"])
+        if any(list(mc) != list(range(K)) for mc in o["member_classes"]):
+            return fails
+        mats = [np.array(m) for m in o["members"] if m is not None]
+        if len(mats) != len(o["members"]) or len({m.shape for m in mats}) != 1:
+            fails.append(("colens:member-outputs-missing-or-ragged", "member outputs %r" % [None if m is None else np.array(m).shape for m in o["members"]]))
+            return fails
+        exp = np.mean(np.array(mats), axis=0)
+        if np.abs(exp - o["proba"]).max() > 1e-9:
+            fails.append(("colens:proba-not-mean-of-members", "row 0: %r, mean of members on their own columns %r" % (o["proba"][0].tolist(), exp[0].tolist())))
     if kind == "clf" and c["algo"] in ("boss", "cboss", "tde"):
         # normalised votes: entry = weight of the members voting for that class / total weight
         ws = o["weights"] if o["weights"] is not None else [1.0] * len(o["members"])
@@ -1294,6 +1299,53 @@ def gen_cases(tier, rng):
         L = rng.randrange(1, 40)
         cases.append({"kind": "tsfit", "L": L, "m": rng.choice([None, None, 0, 1, 2, 3, 4, 7, L, L + 1]), "nest": rng.randrange(1, 5),
                       "n": rng.randrange(2, 6), "rs": rng.randrange(1 << 20), "xseed": rng.randrange(1 << 20), "reg": rng.random() < 0.25})
+    # column ensemble: a 'drop' entry / an empty selection in first, middle, last position; the members sit on
+    # DISTINCT columns whose class signal differs (column j is shifted by 2j patterns), inner classifiers differ
+    pos_sets = [[0], [1], [2], [0, 1], [1, 2], [0, 2]] if not q else [[0], [1], [2], [0, 2]]
+    for ci, gaps in enumerate(pos_sets):
+        for gap_kind in ("drop", "empty"):
+            for names in (None, ["a", "b", "c", "d"]):
+                if q and (ci + (gap_kind == "empty") + (names is None) + rng.randrange(2)) % 2:
+                    continue
+                ncol = 4
+                order = list(range(ncol)); rng.shuffle(order)
+                entries, col_it = [], iter(order)
+                for slot in range(3):
+                    col = next(col_it)
+                    key = ["int", col] if names is None or rng.random() < 0.5 else ["name", names[col]]
+                    if slot in gaps:
+                        entries.append([True, key, "tsf"] if gap_kind == "drop" else [False, ["ints", []], "centroid"])
+                    else:
+                        entries.append([False, key, ["tsf", "centroid", "rise"][slot]])
+                ls = rng.choice([[0, 1, 2], ["b", "a", "c"], [7, -3, 100]])
+                cc = {"kind": "colens", "labels": [ls[i % 3] for i in range(7)], "ytest": [ls[0], ls[1], ls[2]], "xseed": rng.randrange(1 << 30),
+                      "rs": rng.randrange(50), "L": 8, "ncol": ncol, "entries": entries, "noise": 3}
+                if names:
+                    cc["colnames"] = names
+                cases.append(cc)
+    # forests larger than one block of any blockwise implementation: mean over ALL fitted trees
+    sizes = [3, 10, 51, 60, 130]
+    for algo in ("tsf", "reg", "rise", "stsf"):
+        for ne in sizes:
+            if algo == "stsf" and ne == 130 and q:
+                continue
+            for rep in range(1 if q else 3):
+                c = _clf_case(rng, algo, tier)
+                k = len(set(c["labels"])) if algo != "reg" else 0
+                if algo == "reg":
+                    c["labels"] = [rng.randrange(-40, 41) / 4.0 for _ in range(5)]
+                else:
+                    ls = sorted(set(c["labels"]), key=str)[:3]
+                    c["labels"] = [ls[i % len(ls)] for i in range(6)]
+                    c["ytest"] = [rng.choice(ls) for _ in range(2)]
+                if algo == "reg":
+                    c["ytest"] = [0.0, 0.0]
+                c["L"] = {"tsf": 6, "reg": 6, "rise": 8, "stsf": 16}[algo]
+                c["noise"] = 30                                   # noisy: the trees disagree, block means differ
+                c.pop("dup", None)
+                c["params"] = dict(c.get("params", {}), n_estimators=ne)
+                c["params"].pop("min_interval", None) if algo in ("tsf", "reg") else None
+                cases.append(c)
     # BOSS-family fit on series around the smallest window (fit must reject, or retain a member)
     for algo in ("boss", "cboss", "tde"):
         for L in ((8, 9, 10, 11) if q else range(5, 14)):
